@@ -360,10 +360,12 @@ def minimise_load(lf):
     n[0] += 1
     r = check_item((n[0], lf['options'], s, None))
     return bool(r['load_failure']) and r['load_failure']['error'].startswith(key)
-  for i in range(len(lines) - 1, start, -1):
-    cand = lines[:i] + lines[i + 1:]
-    if fails(cand):
-      lines = cand
+  for _ in range(2):
+    for i in range(len(lines) - 1, start, -1):
+      if i < len(lines):
+        cand = lines[:i] + lines[i + 1:]
+        if fails(cand):
+          lines = cand
   out = dict(lf)
   out['program'] = '\n'.join(lines[start:])
   return out
